@@ -23,20 +23,22 @@ THEOREMS = {
     'C02_bibtex_entry': 'bibtex, stage 2: the text of an entry of the domain is the C01 rendering of the command (roles as " and "-joined name lists, then fields) under the writer layout, the command is well-formed for C01 and denotes exactly the entry; every name list is read back as the same persons',
     'C02_bibtex_roundtrip': 'bibtex, stage 3: WFDb d and encode = id on strings free of # % & _ ~  =>  the writer succeeds and parse_string(text) raises nothing, reports nothing and returns the same keys in order, entry types as written, fields with values in order, persons per role in order, and the preamble (as one string)',
     'C02_bibtex_roundtrip_example': 'bibtex: the exact writer text of a two-entry example using every construct (kernel evaluation)',
-    'C02_yaml_logic': 'yaml: load(dump(t)) = t  =>  process_entry(_to_dict(d)) = d on WFDbTree true (field order, roles on lower-cased keys, the type key, five name parts, preamble as one string), nothing reported',
-    'C02_xml_logic': 'bibtexml: load(dump(t)) = t  =>  process_entry(_write(d)) = d on WFDbTree false (field order, roles in any letter case, person elements with five name parts); the format carries no preamble',
-    'C02_chain': 'chains: for ANY list of formats with the database in the domain of each, write / convert / ... / read ends with the same entries; the preamble comes back as one string and is lost exactly when BibTeXML is on the way',
-    'C02_lower': 'lower-casing: with preserve_case=False and at least one conversion the chain ends with lowerSpec d (keys, entry types, field names, role names lower-cased, everything else and every order untouched)',
-    'C02_lower_only_case': 'lower-casing: BibliographyData.lower() = lowerSpec (nothing reported) on identifiers distinct up to case; lowerSpec keeps values, persons, orders and preamble and only lower-cases (str.lower(): the regenerated Unicode table, not ASCII) keys / types / field names / role names; the domains are closed under it',
+    'C02_yaml_logic': 'yaml: IF PyYAML is lossless on the ONE tree t = _to_dict(d) (load(dump(t)) = t, asked per tree - PyYAML loses some trees) THEN process_entry(_to_dict(d)) = d on WFDbTree true (field order, roles on lower-cased keys, the type key, five name parts, preamble as one string), nothing reported',
+    'C02_xml_logic': 'bibtexml: IF the XML libraries are lossless on the ONE tree t = _write(d) (asked per tree) THEN process_entry(_write(d)) = d on WFDbTree false (field order, roles in any letter case, person elements with five name parts), nothing reported; the format carries no preamble',
+    'C02_chain': 'chains, FINAL database only: any list of formats, d in the domain of each, serialisers lossless on the trees written along THIS chain (stages; nothing asked of other trees), encode = id off # % & _ ~  =>  write / convert / ... / read ends with the same entries; preamble as one string, lost exactly when BibTeXML is on the way',
+    'C02_chain_steps': 'chains, every step, both preserve_case modes: under the hypotheses of C02_chain each step is written without error and read back with NOTHING reported (no bad name, repeated key or other problem; lower() reports nothing) as canonFor of what was written; chainLog = chain + the per-step reports (same database, no hypotheses)',
+    'C02_lower': 'lower-casing, FINAL database only: preserve_case=False, at least one conversion, d in the domain of each format, serialisers lossless on the trees written along this chain  =>  the chain ends with the entries of lowerSpec d (keys, types, field names, role names lower-cased, all else and every order untouched)',
+    'C02_lower_only_case': 'lower-casing: BibliographyData.lower() = lowerSpec, nothing reported, on identifiers distinct up to case, and the domains are closed under lowerSpec (these two conjuncts concern the model); the other seven conjuncts are readability facts about the spec function lowerSpec ALONE: only keys / types / field / role names change, by str.lower()',
     'C02_name_tests_unicode': 'identifiers beyond ASCII: name.lower() in Person.valid_roles and name.lower() == "type" give the same answer with str.lower() and with the ASCII lower-casing of the models for EVERY string (only U+212A has an ASCII lower-case form, k); lower-casing is idempotent, never yields an ASCII capital and stays in its domain',
-    'C02_quantifier_partial': 'the stated quantifier: a database of its domain WFDbQ (values balanced [white-space-normalised for BibTeX], persons Person(name) can produce, identifiers the format can spell, no duplicates) that has only author / editor roles with at least one person, no field called type (YAML) and none of # % & _ ~ (BibTeX) lies in the claimed domain and is read back as written',
-    'C02_quantifier_exact': 'the claimed domain of each format is EXACTLY the stated quantifier minus the four recorded restrictions (iff): nothing else is excluded silently',
+    'C02_quantifier_partial': 'relative to WFDbQ (our formalisation of the quantifier, see C02_quantifier_exact): a WFDbQ database with only non-empty author / editor roles, no field called type (YAML), none of # % & _ ~ (BibTeX) is in the claimed domain and - serialiser lossless on its one tree - reads back with nothing reported; the preamble LIST comes back joined (dropped by BibTeXML)',
+    'C02_quantifier_exact': 'claimed domain = WFDbQ minus the four recorded restrictions (iff) - relative to WFDbQ, our formalisation of the quantifier, which additionally excludes: a field named author / editor, a role named type, field = role name up to case, U+0130 / U+03A3, persons outside WFPerson; BibTeX: non-NAME / reserved identifiers, odd keys, nesting > 100 (full list: LEVEL_NOTE)',
     'C02_other_role_neg': 'finding C02-role-not-author-editor (kernel-evaluated counterexample inside the quantifier): a person under the role translator comes back as a text field translator in all three formats (BibTeX: the name; YAML: str() of the list of dictionaries; BibTeXML: the indentation), persons lost',
     'C02_empty_role_neg': 'finding C02-empty-role (counterexample): persons["author"] = [] is gone after a round trip through any format',
     'C02_yaml_type_neg': 'finding C02-yaml-type-field (counterexample): through YAML the value of a field "type" becomes the entry type and the field is gone, a field "Type" is dropped; BibTeX and BibTeXML carry it',
     'C02_five_neg': 'finding C02-five-characters (counterexample): with the encoder that re-escapes # % & _ ~ the value R&D 100% a_b #1 x~y is written and read back escaped; with the identity encoder it comes back unchanged',
     'C02_repr_logic': 'repr / eval: evaluating the constructor calls Entry.__repr__ (type as written, field pairs, Person(str(p)) per role) and BibliographyData.__repr__ (key / entry pairs, preamble list) print gives the database back - any role names, empty roles, the preamble list unjoined - when identifiers are distinct up to case and persons are WFPerson; nothing reported',
-    'C02_serial_witness': 'non-vacuity of the serialiser hypotheses: a concrete lossless Serial (identity encoder, prefix-code printers for value trees and element trees, load(dump t) = t proved for EVERY tree) exists; C02_chain and C02_lower instantiated with it hold without hypotheses on the example database',
+    'C02_serial_witness': 'non-vacuity of the serialiser hypotheses: a Serial lossless on EVERY tree (identity encoder, prefix-code printers) exists - a Lean artefact, not PyYAML / xml.*, which lose some trees; C02_chain and C02_lower instantiated with it hold without hypotheses on the example database',
+    'C02_chain_steps_nonvacuous': 'the per-tree hypothesis is strictly weaker than losslessness on every tree: a serialiser refusing every text with U+0085 (as PyYAML does) is NOT lossless everywhere, yet lossless on all trees of a four-format chain of the example in both preserve_case modes, so C02_chain / C02_lower / C02_chain_steps apply to it',
 }
 RULE = ('databases as JSON (entries with key, type as written, ordered fields, ordered roles with persons as five token lists, preamble list) '
         'built through the public constructors; ES: every person Person(name) yields for the token shapes of C04 (<=3 tokens x comma placements) '
@@ -52,8 +54,8 @@ RULE = ('databases as JSON (entries with key, type as written, ordered fields, o
         'person element form); pickle and eval(repr()) executed for real, the entry type as written included (oracle only); '
         'non-trivial = a database with a field or person / a person with >1 token; distinct by case JSON')
 TRUSTED = ['PyYAML (yaml.dump / yaml.load with the ordered dumper/loader), xml.sax XMLGenerator + ElementTree, latexcodec, pickle: parameters of the '
-           'model with the hypotheses load(dump t) = t resp. encode = id on strings free of # % & _ ~; exercised for real on every case, not proved',
-           'the harness keeps databases PyYAML / XML cannot represent out of the claimed domain (U+0085; XML names for identifiers, XML characters)']
+           'model with the hypotheses load(dump t) = t - asked only for the trees pybtex writes for the database at hand (LosslessOn; false of the real libraries on some trees, e.g. U+0085 in YAML, non-XML names / characters) - resp. encode = id on strings free of # % & _ ~; exercised for real on every case, not proved',
+           'the harness keeps databases PyYAML / XML cannot represent out of the claimed domain (U+0085; XML names for identifiers, XML characters): the quantifier\'s "XML-representable" is not a Lean predicate, in the theorems it is the per-tree hypothesis LosslessOn']
 ASSUMPTIONS = ['identifiers contain neither U+0130 (its lower-case form is two characters) nor U+03A3 (final-sigma rule): elsewhere the model lower-cases them as str.lower() does (table regenerated from the interpreter; explicit predicate lowerDomain in WFDbTree)',
                'BibTeXML identifiers are XML names expat accepts (ASCII and Latin-1 letters are generated); after a YAML step has put the value of a field called type in the place of the entry type (finding C02-yaml-type-field) later formats are only checked when that value is alphanumeric',
                'to_bytes / parse_bytes: an encoding every string of the database can be encoded in (the BibTeX writer LaTeX-escapes what the encoding cannot hold)',
@@ -1147,13 +1149,14 @@ LEVEL_TEXT = ('Machine-checked proofs (Lean 4) about function-by-function models
               'itself produces (C02_wfperson_of_parse) - the written name and str() are read back as the same person, and so are the five part '
               'texts; (2) for EVERY database in the explicit decidable domain WFDb the BibTeX writer\'s text is read back by the .bib reader model of '
               'C01/C10 without error as the same ordered database (staged: field, entry = a C01 rendering + its denotation, database); (3) for YAML '
-              'and BibTeXML, pybtex\'s own conversion logic is the identity given a lossless serialiser (one is constructed: C02_serial_witness); (4) hence any '
-              'chain of formats preserves the entries, and lower-casing (str.lower(), Unicode table) changes only the letter case of keys, types, field names '
-              'and roles; (5) the domain of the STATED quantifier (WFDbQ) minus four explicitly named classes lies in these domains (C02_quantifier_partial); on '
+              'and BibTeXML, pybtex\'s own conversion logic is the identity given a serialiser that is lossless on the trees pybtex hands it for the database at '
+              'hand (per-tree hypothesis LosslessOn; a serialiser lossless everywhere is constructed: C02_serial_witness, one that is not: C02_chain_steps_nonvacuous); (4) hence any '
+              'chain of formats preserves the entries with nothing reported at any step (C02_chain_steps), and lower-casing (str.lower(), Unicode table) changes only the letter case of keys, types, field names '
+              'and roles; (5) our formalisation WFDbQ of the stated quantifier (it excludes more than the published text: see the note) minus four explicitly named classes lies in these domains (C02_quantifier_partial); on '
               'each of the four classes the round trip FAILS, with a kernel-evaluated counterexample and a recorded finding. The models are tied to the code '
               'by the differential check, which also runs pickle and eval(repr()) for real.')
 LEVEL_NOTE = ('Modelled and proved: pybtex\'s writer / reader / lower / convert logic. ASSUMED (hypotheses of the theorems, exercised by the correspondence '
-              'on every case, never proved): PyYAML and xml.* are lossless on the trees pybtex hands them (load(dump t) = t), latexcodec changes only '
+              'on every case, never proved): PyYAML and xml.* are lossless on the trees pybtex hands them FOR THE DATABASE AT HAND (load(dump t) = t for each tree written along the chain - LosslessOn / stages; not for every tree, which is false of the real libraries), latexcodec changes only '
               '# % & _ ~ (verified on every single code point by a probe), pickle, and repr / eval of Python strings / lists / dictionaries (the two __repr__ and the '
               'constructors are modelled as constructor calls: C02_repr_logic, compared with eval(repr(db)) of the real code on every lowerdb case). Not modelled: pickle (oracle only); the '
               'transports (to_string / to_bytes / to_file / convert() on files: exercised, the model is transport-independent); the white space '
@@ -1164,9 +1167,18 @@ LEVEL_NOTE = ('Modelled and proved: pybtex\'s writer / reader / lower / convert 
               'duplicates up to case; roles author / editor (any case), non-empty; persons WFPerson (what Person(name) yields, no token ending in a backslash, a '
               'last name present) whose written name contains no brace-level-0 " and "; YAML / BibTeXML: any identifiers free of U+0130 / U+03A3, YAML: no field '
               'called "type"; BibTeXML: the preamble is not carried. NOT in the claimed domain although inside the stated quantifier: the four recorded findings '
-              '(known_findings.json: C02-role-not-author-editor, C02-empty-role, C02-yaml-type-field, C02-five-characters); also excluded, unstated by the '
-              'property: a text FIELD called author / editor (read back as persons), nesting > 100, reserved entry types, a name list with a brace-level-0 " and " '
-              'inside one name. The model follows the code AFTER the proposed repairs C02-1 (empty First part kept: "Last, Jr," / "World Bank,"), C02-2 '
+              '(known_findings.json: C02-role-not-author-editor, C02-empty-role, C02-yaml-type-field, C02-five-characters). C02_quantifier_exact is an iff between two '
+              'in-house predicates (inDomain and WFDbQ + noFinding): WFDbQ is OUR formalisation of the quantifier and excludes, beyond the published text, ALL of: '
+              '(every format) a text FIELD called author / editor (read back as persons); a ROLE called type (any case); a field name equal up to case to a role name '
+              'of the same entry (fields and roles share one namespace in all three formats); keys / types / field names / role names containing U+0130 or U+03A3; '
+              'persons outside WFPerson - at most one first name, no middle name without a first, no lower-case (von) token in Last before its final token, prelast ending in a von '
+              'token, a last name present, tokens non-empty / balanced / free of level-0 white space, tie, comma, no token ending in a backslash - also for YAML / '
+              'BibTeXML, where C02_person_parts_roundtrip shows the shape conditions are not needed (the domain is narrower than necessary there); (BibTeX only) entry '
+              'types, field names, role names that are not NAMEs of the .bib grammar (ASCII); the reserved entry types comment / preamble / string; keys that are empty, '
+              'non-ASCII or contain white space, a comma or }; brace nesting > 100 in a value, name list or preamble; a written name list that is not white-space-normalised '
+              '(also inside braces); a name with a brace-level-0 " and " inside; a preamble whose JOINED text is not balanced (nesting <= 100) and white-space-normalised. WFDbQ asks NOTHING of YAML / BibTeXML values (not even balance): "XML-representable" is '
+              'the per-tree hypothesis. The chain theorems C02_chain / C02_lower describe the final database only; that every step reads back with nothing reported '
+              'is C02_chain_steps; "read back as written" means canonFor: the preamble LIST comes back joined into one string (dropped by BibTeXML). The model follows the code AFTER the proposed repairs C02-1 (empty First part kept: "Last, Jr," / "World Bank,"), C02-2 '
               '(BibTeXML role detection case-insensitive), C02-3 (BibliographyData.__repr__ no longer corrupted by keys occurring earlier in the text), C02-4 '
               '(Entry.__repr__ shows the type as written; harness only, repr is not modelled); Model/Names.lean Person.toStr is the pre-repair __str__ (C04 owns '
               'it) - the theorems use BibWrite.personStr. Trusted: Lean kernel; axioms propext/Classical.choice/Quot.sound; the tie between models and code is '
